@@ -5,6 +5,10 @@ V = os.path.dirname(os.path.dirname(os.path.abspath(__file__)))
 ids = [json.loads(l)["id"] for l in open(os.path.join(V, "properties.jsonl"))]
 
 CHECKS = {
+ "C11": dict(cat="exploration", design="§4 C11",
+   technique="property-based testing: enumerated + Hypothesis-generated import graphs against a depth-first initialisation model, run in memory and from files",
+   text="All import DAGs over up to 3 (quick) / 4 (thorough) modules x both import forms per edge x two placements of the import statements among side-effecting top-level statements are enumerated, and Hypothesis graphs over up to 5 modules add sub-directory layouts, `./` path spellings, modules imported in both forms and several importers per module; every import is followed by a call bumping the imported module's counter. The exact trace (each module initialised once at its first executed import, completed before the importer continues; one shared counter per module seen through every importer, through the module object and through exported getters) is prescribed by a simulation and must be printed by `run` and by `compile` + `execute`; four negative programs (private name through either import form, write through the module object, wrong type) must be rejected before anything runs.",
+   note="A scalar bound by `import a from m` is a value copy in this language (documented by the repository's tests), so liveness of exported scalars is checked through `m.a` and getters only. `..` cannot be spelled in import paths (grammar), so parent-directory layouts are not generated."),
  "C10": dict(cat="fault_enumeration", design="§4 C10",
    technique="exhaustive enumeration of (declaration context x type x write form x write context) programs with a reject-or-unchanged oracle",
    text="All 679 applicable combinations of declaration context (module, function, block, class name, imported module, imported member), constant type (int, str, bool, list, optional, object), write form (=, five op-assigns, ?= in four positions, modify, index/field assignment and op-assign, loop counter with and without step, unpacking, typed re-declaration) and write context (same scope, if block, from loop, while loop, nested function, closure in a block, method) are generated in both tiers; each must be rejected at compile time without running, or run with the declaring scope and a closure created before the write still observing the initializer. Complete for this catalogue; forms outside it are not covered.",
